@@ -14,7 +14,7 @@ MANIFEST = dict(
 )
 GEN = ["Timing", "Errors"]
 THEOREMS = [
-    "c14_translated", "c14_deadline", "c14_timeout_at_deadline", "c14_cancel_latency", "c14_cancelled_only_if_fired",
+    "c14_translated", "c14_poll_interval_documented", "c14_deadline", "c14_timeout_at_deadline", "c14_cancel_latency", "c14_cancelled_only_if_fired",
     "c14_one_cancel_notification", "c14_cancel_before_send_writes_no_request", "c14_progress_exact",
     "c14_consumed_is_before_completion", "c14_progress_token_filter", "c14_callback_failure_irrelevant",
 ]
